@@ -1,7 +1,7 @@
-SPECIFICATION Spec
+SPECIFICATION MCSpec
 CONSTANTS
   Impl <- ImplCurrent
-INVARIANTS TypeOK NoPanic ErrWhenRequired
+INVARIANTS TypeOK NoPanic ErrWhenRequired Frame
 PROPERTIES ContactGroupNeedsAccount
 CONSTRAINT MCBound
 VIEW view
